@@ -351,7 +351,7 @@ func (r *c16Run) opAddBegin(k int, seed int64) {
 		desc += fmt.Sprintf("->%d", *idx)
 		if o := r.liveAt(*idx, k); o >= 0 {
 			key := ""
-			if *idx == 0 && r.obj1Gone {
+			if *idx == 0 && r.obj1Gone && c16ZeroIndexOn {
 				key = "zero_index_untested"
 			}
 			r.fail("id-not-unique", fmt.Sprintf("Add gave actor %d the index %d which live actor %d holds: %s ; %s", k, *idx, o, r.trace(), desc), key)
@@ -364,7 +364,7 @@ func (r *c16Run) opAddBegin(k int, seed int64) {
 		for o := range r.actors {
 			if o != k && r.phase[o] == c16phAdding && r.id[o] == *idx {
 				key := ""
-				if *idx == 0 && r.obj1Gone {
+				if *idx == 0 && r.obj1Gone && c16ZeroIndexOn {
 					key = "zero_index_untested"
 				} else if r.sawRemovePending {
 					key = "remove_pending_slot"
@@ -409,7 +409,7 @@ func (r *c16Run) opAddEnd(k int, ok bool) {
 		if b {
 			if o := r.liveAt(r.id[k], k); o >= 0 {
 				key := ""
-				if r.id[k] == 0 && r.obj1Gone {
+				if r.id[k] == 0 && r.obj1Gone && c16ZeroIndexOn {
 					key = "zero_index_untested"
 				} else if r.sawRemovePending {
 					key = "remove_pending_slot"
@@ -892,7 +892,7 @@ func (r *c16Run) epilogue() {
 		_, after := r.actors[k].counts()
 		if after != before+1 {
 			key := ""
-			if r.id[k] == 0 && r.obj1Gone {
+			if r.id[k] == 0 && r.obj1Gone && c16ZeroIndexOn {
 				key = "zero_index_untested"
 			} else if r.sawRemovePending {
 				key = "remove_pending_slot"
@@ -913,6 +913,10 @@ func (r *c16Run) caseTerm() string {
 }
 
 // ---------- defect probes: the witnesses of C16_refuted_* replayed on the real service ----------
+
+// c16ZeroIndexOn: the zero_index_untested defect is present in the tree under test (set from the
+// probe); failures are attributed to a finding only when its switch is actually on.
+var c16ZeroIndexOn = true
 
 func c16Probes(res *hx.Result, rng *hx.Rng) [5]bool {
 	var on [5]bool
@@ -1170,6 +1174,7 @@ func runC16(res *hx.Result, rng *hx.Rng, tier string, outdir string) {
 		nCases = 4000
 	}
 	on := c16Probes(res, rng)
+	c16ZeroIndexOn = on[1]
 	cf := hx.NewCases(outdir, "C16", "From QV Require Import Service C16Run.", "mismatches cfg tcases", res, "tcases", "tcase")
 	cf.Extra = append(cf.Extra, "Local Open Scope N_scope.")
 	cf.Extra = append(cf.Extra, fmt.Sprintf("Definition cfg := mkcfg %s %s %s %s %s.", hx.Bool(on[0]), hx.Bool(on[1]), hx.Bool(on[2]), hx.Bool(on[3]), hx.Bool(on[4])))
